@@ -449,8 +449,8 @@ pub fn def(tier: Tier) -> PropertyDef {
         id: "C15",
         rule: "stateful histories of 1..25 commands from a grammar over open/close/pause/resume/stream/query/stop/stream_change_window/stream_binary_search/stream_search/plugin_cmd/fs/garbage/waits with valid and invalid forms (missing/extra arguments, non-numeric, unknown and stopped ids, malformed JSON, wrong JSON types, inverted/huge windows), files: 50, 5000 and 60000 messages (parser throttled through the adlt_verif schedule hook so commands land while parsing runs), two files sorted, collect modes all/none/one_pass_streams (thorough: 2.2M messages); model {open, mode, live ids} updated from the replies; after every command exactly one reply of the kind the model implies, naming the command; no stray reply; process alive, no panic on stderr, connection open; final close completes and a new open succeeds. Non-trivial: a malformed command addressed to a live stream or a close within 600 ms after opening a big file.",
         assumptions: vec!["a missing reply within 20 s (60 s for close) counts as violation (the server polls every <= 100 ms)", "in one_pass_streams sessions a stream request after resume may be refused or accepted depending on whether messages were already drained"],
-        subs: vec![sub("histories", tier.pick(400, 12_000), history(xl), check).rates(&[("malformed_to_live_stream", 0.1), ("close_while_parsing", 0.03), ("one_pass_session", 0.1)]).shrink_iters(60).boxed(),
-            sub("one_pass_sessions", tier.pick(160, 5_000), one_pass_history(), check).rates(&[("one_pass_session", 0.9)]).shrink_iters(60).boxed()],
+        subs: vec![sub("histories", tier.pick(400, 12_000), history(xl), check).rates(&[("malformed_to_live_stream", 0.1), ("close_while_parsing", 0.03), ("one_pass_session", 0.1)]).shrink_iters(60).slow().boxed(),
+            sub("one_pass_sessions", tier.pick(160, 5_000), one_pass_history(), check).rates(&[("one_pass_session", 0.9)]).shrink_iters(60).slow().boxed()],
         workers: 16,
     }
 }
